@@ -8,7 +8,7 @@
    every run); inet_pton/inet_ntop/uuid_parse/uuid_unparse are universally quantified with named
    hypotheses.                                                                                  *)
 From OlaBase Require Import Bytes.
-From C20 Require Import Libc Spec Model Ipv6 ProofsDigits ProofsInt ProofsHex ProofsText ProofsIpv6 ProofsIpv6v4 ProofsExt ProofsPton4 ProofsUuid ProofsIpv6Full.
+From C20 Require Import Libc Spec Model Ipv6 ProofsDigits ProofsInt ProofsHex ProofsText ProofsIpv6 ProofsIpv6v4 ProofsExt ProofsPton4 ProofsUuid ProofsIpv6Full ProofsIpv6Comp.
 From C20 Require Gen.
 Local Open Scope N_scope.
 
@@ -548,6 +548,29 @@ Proof.
 Qed.
 Print Assumptions c20_ipv6_full_form_exact.
 
+(* inet_pton(AF_INET6) on the glibc model, every text without '.': accepted EXACTLY when it is
+   either the full form (eight groups) or two possibly empty lists of groups, at most seven in
+   all, around one "::"; groups are 1-4 hex digits separated by single colons; the result is the
+   group values with the "::" replaced by the missing zero words.  (Texts with an embedded IPv4
+   suffix are the part not covered by an accepts => denotes theorem.)                             *)
+Theorem c20_ipv6_compressed_exact : forall t ws, ~ In 46 t ->
+  (inet_pton6 t = Some ws <->
+   (exists gs, length gs = 8%nat /\
+      Forall (fun g => (1 <= length g <= 4)%nat /\ forallb is_hex_char g = true) gs /\
+      t = join [58] gs /\ ws = map (text_value 16) gs) \/
+   (exists g1 g2,
+      Forall (fun g => (1 <= length g <= 4)%nat /\ forallb is_hex_char g = true) g1 /\
+      Forall (fun g => (1 <= length g <= 4)%nat /\ forallb is_hex_char g = true) g2 /\
+      (length g1 + length g2 <= 7)%nat /\
+      t = join [58] g1 ++ [58; 58] ++ join [58] g2 /\
+      ws = map (text_value 16) g1 ++ repeat 0 (8 - (length g1 + length g2)) ++ map (text_value 16) g2)).
+Proof.
+  intros t ws Hdot. split.
+  - exact (compressed_sound t ws Hdot).
+  - intros [H|H]; [exact (full_form_complete t ws H)|exact (compressed_complete t ws H)].
+Qed.
+Print Assumptions c20_ipv6_compressed_exact.
+
 (* ---- non-vacuity ------------------------------------------------------------------------------- *)
 (* the hypotheses on the external functions are jointly satisfiable ... *)
 Example ex_net_hyps_sat :
@@ -629,3 +652,9 @@ Example ex_ipv6_full :
   inet_pton6 [49; 58; 48; 48; 50; 58; 65; 58; 98; 58; 48; 58; 48; 58; 70; 70; 70; 102; 58; 49; 48] =
   Some [1; 2; 10; 11; 0; 0; 65535; 16].
 Proof. vm_compute. reflexivity. Qed.
+
+Example ex_ipv6_compressed :
+  inet_pton6 [102; 101; 56; 48; 58; 58; 49; 58; 48; 50] = Some [65152; 0; 0; 0; 0; 0; 1; 2] /\
+  inet_pton6 [58; 58] = Some [0; 0; 0; 0; 0; 0; 0; 0] /\ inet_pton6 [49; 58; 58] = Some [1; 0; 0; 0; 0; 0; 0; 0] /\
+  inet_pton6 [49; 58; 50; 58; 51; 58; 52; 58; 53; 58; 54; 58; 55; 58; 58; 56] = None.
+Proof. vm_compute. repeat split; reflexivity. Qed.
